@@ -92,3 +92,62 @@ Definition d_rfb_run (a : sexp) : sexp :=
       end
   | _ => sErr
   end.
+
+(** "rfb_script": chunks interleaved with capture requests. items: (0 bytes) | (1 inc) *)
+Definition item_of_sexp (x : sexp) : item :=
+  match as_list x with
+  | [I 0; d] => IChunk (as_Zs d)
+  | [I 1; I inc] => ICapture inc
+  | _ => IChunk []
+  end.
+
+Definition d_rfb_script (a : sexp) : sexp :=
+  match as_list a with
+  | [c; pw; tape; w0; items; want_screen] =>
+      let cf := cfg_of_sexp c in
+      let tp := map (fun t => match as_list t with [d] => Some (as_Zs d) | _ => None end) (as_list tape) in
+      let its := map item_of_sexp (as_list items) in
+      let total := fold_left (fun n it => match it with IChunk d => (n + List.length d)%nat | _ => n end) its 0%nat in
+      let fuel := (4 * total + 64)%nat in
+      match run_script fuel (CInitial (st0 cf (opt_text pw) tp (as_bool w0)) []) its with
+      | Some (es, cl, n) =>
+          L [L (map sexp_of_ev es); sexp_of_client cl; I (Z.of_nat n);
+             if as_bool want_screen then sexp_of_screen (fold_left apply_ev es (lib0 (c_nocursor cf))) else L []]
+      | None => L [I (-3)]
+      end
+  | _ => sErr
+  end.
+
+(** "screen_ops": the library client's screen under direct callback calls.
+    ops: (0 x y w h data) updateRectangle | (1 w h) updateDesktopSize | (2 x y w h img mask) updateCursor
+         | (3 x y w h color) fillRectangle | (4 x y) pointer position. Result: per-op raised flag, screen. *)
+Definition mode_of_id (z : Z) : immode :=
+  if z =? 0 then MRGB else if z =? 1 then MRGBX else if z =? 2 then MBGR else if z =? 3 then MBGRX else MBGR16.
+
+Fixpoint screen_ops (l : lib) (ops : list sexp) : lib * list Z :=
+  match ops with
+  | [] => (l, [])
+  | o :: r =>
+      let res :=
+        match as_list o with
+        | [I 0; I x; I y; I w; I h; d] => update_rect l x y w h (as_Zs d)
+        | [I 1; I w; I h] => resize l w h
+        | [I 2; I x; I y; I w; I h; i; m] => update_cursor l x y w h (as_Zs i) (as_Zs m)
+        | [I 3; I x; I y; I w; I h; c] => fill_rect l x y w h (as_Zs c)
+        | [I 4; I x; I y] => Some (mk_lib (screen l) (cur l) (l_mode l) (l_nocursor l) x y)
+        | _ => Some l
+        end in
+      match res with
+      | Some l' => let '(lf, fl) := screen_ops l' r in (lf, 0 :: fl)
+      | None => let '(lf, fl) := screen_ops l r in (lf, 1 :: fl)
+      end
+  end.
+
+Definition d_screen_ops (a : sexp) : sexp :=
+  match as_list a with
+  | [nc; I m; ops] =>
+      let l0 := mk_lib None None (mode_of_id m) (as_bool nc) 0 0 in
+      let '(l, flags) := screen_ops l0 (as_list ops) in
+      L [sZs flags; sexp_of_screen l]
+  | _ => sErr
+  end.
